@@ -231,7 +231,11 @@ func ruleC29(c *Ctx) {
 	}
 	tb := c.Func("common/bech32", "toBytes")
 	if tb != nil {
-		c.RequireFactsAtCalls("facts", tb, "builtin:append", "call:strings.IndexByte >= 0 | 0 <= call:strings.IndexByte")
+		if len(callsTo(tb, false, "strings.IndexByte")) == 0 {
+			c.Machinef("common/bech32.toBytes no longer looks characters up with strings.IndexByte: the charset-membership rule cannot decide the new lookup (a table's contents are values) — undecided")
+		} else {
+			c.RequireFactsAtCalls("facts", tb, "builtin:append", "call:strings.IndexByte >= 0 | 0 <= call:strings.IndexByte")
+		}
 	}
 	da := c.Func("common", "DecodeAddress")
 	if da != nil {
